@@ -89,7 +89,7 @@ class FunctionInfo:
 
     def loc(self, node=None) -> str:
         n = node if node is not None else self.node
-        return f"{self.module.relpath}:{getattr(n, 'lineno', 0)}"
+        return f"{self.module.relpath}:{getattr(n, '_orig_lineno', getattr(n, 'lineno', 0))}"
 
     def params(self) -> List[str]:
         a = self.node.args
@@ -349,6 +349,53 @@ def _inline_exception_tuples(tree):
         if isinstance(n, ast.ExceptHandler) and isinstance(n.type, ast.Name) and n.type.id in consts and stores.get(n.type.id, 0) == 1:
             n.type = ast.copy_location(_copy.deepcopy(consts[n.type.id]), n.type)
     ast.fix_missing_locations(tree)
+
+
+def _renumber(tree):
+    """Line numbers in document order of the *normalised* program (one number per statement, expressions share their
+    statement's): inlined helper bodies carry the line numbers of the helper, so `lineno` no longer orders statements.
+    The source line is kept in `_orig_lineno` for diagnostics (FunctionInfo.loc)."""
+    counter = [0]
+
+    def visit_stmt(s):
+        counter[0] += 1
+        new = counter[0]
+        stack = [s]
+        while stack:
+            n = stack.pop()
+            if hasattr(n, "lineno"):
+                if not hasattr(n, "_orig_lineno"):
+                    n._orig_lineno = n.lineno
+                n.lineno = new
+                if hasattr(n, "end_lineno"):
+                    n.end_lineno = new
+            for fld, v in ast.iter_fields(n):
+                if isinstance(v, list):
+                    if v and isinstance(v[0], ast.stmt):
+                        continue
+                    for x in v:
+                        if isinstance(x, ast.ExceptHandler) or isinstance(x, getattr(ast, "match_case", ())):
+                            continue
+                        if isinstance(x, ast.AST):
+                            stack.append(x)
+                elif isinstance(v, ast.AST) and not isinstance(v, ast.stmt):
+                    stack.append(v)
+        for fld in ("body", "orelse", "handlers", "finalbody", "cases"):
+            v = getattr(s, fld, None)
+            if isinstance(v, list):
+                for x in v:
+                    if isinstance(x, ast.stmt):
+                        visit_stmt(x)
+                    elif isinstance(x, ast.ExceptHandler) or isinstance(x, getattr(ast, "match_case", ())):
+                        counter[0] += 1
+                        if hasattr(x, "lineno"):
+                            x._orig_lineno = getattr(x, "_orig_lineno", x.lineno)
+                            x.lineno = counter[0]
+                        for y in x.body:
+                            visit_stmt(y)
+
+    for s in tree.body:
+        visit_stmt(s)
 
 
 def _normalise_syntax(tree):
@@ -1668,6 +1715,7 @@ class Program:
                 if os.environ.get("SA_NO_PURE_TEMPS") != "1":
                     _propagate_pure_temps(tree)
                     _normalise_syntax(tree)
+            _renumber(tree)
             m = ModuleInfo(modname, path, rel, source, tree, is_pkg)
             self.modules[modname] = m
             self._index_module(m)
